@@ -5,7 +5,7 @@ cd /verif
 git -C /repo diff --quiet || { echo "/repo has uncommitted changes"; exit 2; }
 PATCH=/verif/seeded/$NAME/patch.diff; [ -f /verif/seeded/$NAME/patch_on_current.diff ] && PATCH=/verif/seeded/$NAME/patch_on_current.diff
 git -C /repo apply $PATCH 2>/tmp/apply.err || { echo "patch does not apply"; cat /tmp/apply.err; git -C /repo reset -q --hard HEAD; exit 2; }
-./check $PROP "$@" > /tmp/try-$NAME-$PROP.log 2>&1; RC=$?
+VF_EVIDENCE_DIR=/tmp/seed-evidence ./check $PROP "$@" > /tmp/try-$NAME-$PROP.log 2>&1; RC=$?
 git -C /repo reset -q; git -C /repo checkout -q -- .
 grep -E "^(VIOLATION|  clause|HARNESS-ERROR|REGRESSED)" /tmp/try-$NAME-$PROP.log | head -8
 tail -1 /tmp/try-$NAME-$PROP.log
